@@ -1,0 +1,20 @@
+//go:build verif
+
+package common
+
+// Verification hooks (add-only, compiled only with `-tags verif`).
+// They expose unexported functions to the /verif correspondence harness without changing behaviour.
+
+import (
+	"github.com/protolambda/zrnt/eth2/util/hashing"
+)
+
+// VerifInnerPermuteIndex calls innerPermuteIndex with a caller-supplied hash function (C06).
+func VerifInnerPermuteIndex(hashFn hashing.HashFn, rounds uint8, input ValidatorIndex, listSize uint64, seed Root, dir bool) ValidatorIndex {
+	return innerPermuteIndex(hashFn, rounds, input, listSize, seed, dir)
+}
+
+// VerifInnerShuffleList calls innerShuffleList with a caller-supplied hash function (C06).
+func VerifInnerShuffleList(hashFn hashing.HashFn, rounds uint8, input []ValidatorIndex, seed Root, dir bool) {
+	innerShuffleList(hashFn, rounds, input, seed, dir)
+}
